@@ -1589,6 +1589,9 @@ def _hist_scripts(smi, other):
                                           dict(op="s2g", smiles=smi, attrs=[], **{"as": "c"}), dict(op="s2g", smiles=smi, eattrs=[], **{"as": "d"}),
                                           dict(op="s2g", smiles=smi, **{"as": "e"}), dict(op="g2m", g="e"), dict(op="g2m", g="d")]),
         ("converter-objects-reused", [dict(op="conv", smiles=[smi, other, smi, other]), dict(op="s2g", smiles=smi, **{"as": "a"}), dict(op="g2m", g="a")]),
+        # the same converter objects on DIFFERENT molecules of the SAME size and shape
+        ("converter-objects-same-size", [dict(op="conv", smiles=["CCO", "CCN", "CC[O-]", "C[NH2+]C", "CC=O", "CCO"]),
+                                         dict(op="conv", smiles=["[Na+]", "[K+]", "[Cl-]", "[Na+]"])]),
     ]
 
 
@@ -1620,9 +1623,11 @@ def _hist_cases(quick, rng):
             continue
         other = pool[(j + 5) % len(pool)]
         for nm, script in _hist_scripts(smi, other):
+            if nm == "converter-objects-same-size" and j:
+                continue        # does not depend on the SMILES: once
             if not rec["atoms"] and any(st["op"] == "edit" or st.get("nodes") for st in script):
                 continue        # edits address atom 1
-            if quick and rng.random() < 0.4 and nm not in ("reduced-then-default", "default-reduced-default"):
+            if quick and rng.random() < 0.4 and nm not in ("reduced-then-default", "default-reduced-default", "converter-objects-same-size"):
                 continue
             out.append(dict(kind="hist", script=script, name="hist/%s/%d" % (nm, j)))
     return out
